@@ -173,6 +173,16 @@ func genCase(rt *rapid.T) *Case {
 		c.Live = drawLive(rt, n)
 	}
 	c.Restart = rapid.IntRange(0, 4).Draw(rt, "restart") == 4
+	if c.Live != nil && !c.Restart && rapid.Bool().Draw(rt, "second-cycle") {
+		next := drawLive(rt, n)
+		next.Position = c.Live.Position
+		for i := range next.Leaves {
+			next.Leaves[i].Path = "second/" + next.Leaves[i].Path
+		}
+		// Neither root may look emptied in the second cycle.
+		next.Leaves = append(next.Leaves, Leaf{Path: "second/zz-keep", Kind: "agree"})
+		c.LiveNext = next
+	}
 	q := rapid.IntRange(1, 5).Draw(rt, "queries")
 	for i := 0; i < q; i++ {
 		c.Queries = append(c.Queries, drawQuery(rt, fmt.Sprintf("q%d", i), n))
